@@ -104,6 +104,43 @@ type c13M struct {
 	probeOn    bool
 	probeTag   int64
 	probeCases map[int64]bool
+	// labelled statements: nextLabel is the label of the statement about to be executed (set by
+	// the LabeledStmt case, taken at the top of stmt); brLabel is the target of a labelled
+	// break/continue in flight ("" = the innermost enclosing statement)
+	nextLabel string
+	brLabel   string
+}
+
+// loopCtl classifies the control outcome of one loop-body execution for the loop labelled own
+// ("" = unlabelled): it consumes a break/continue aimed at this loop and reports whether the loop
+// stops and what it passes on to the enclosing statement.
+func (m *c13M) loopCtl(ctl int, own string) (stop bool, out int) {
+	switch ctl {
+	case c13Break:
+		if m.brLabel == "" || m.brLabel == own {
+			m.brLabel = ""
+			return true, c13None
+		}
+		return true, c13Break
+	case c13Continue:
+		if m.brLabel == "" || m.brLabel == own {
+			m.brLabel = ""
+			return false, c13None
+		}
+		return true, c13Continue
+	case c13Return:
+		return true, c13Return
+	}
+	return false, c13None
+}
+
+// switchCtl is loopCtl for switch / type switch / select-like statements (only break binds).
+func (m *c13M) switchCtl(ctl int, own string) int {
+	if ctl == c13Break && (m.brLabel == "" || m.brLabel == own) {
+		m.brLabel = ""
+		return c13None
+	}
+	return ctl
 }
 
 func newC13M(c *Ctx, follow ...string) *c13M {
@@ -997,8 +1034,25 @@ func (m *c13M) choose(desc string) bool {
 }
 
 func (m *c13M) stmt(fr *c13Frame, s ast.Stmt) int {
+	own := m.nextLabel
+	m.nextLabel = ""
 	m.tick(s)
 	switch s := s.(type) {
+	case *ast.LabeledStmt:
+		name := s.Label.Name
+		switch s.Stmt.(type) {
+		case *ast.ForStmt, *ast.RangeStmt, *ast.SwitchStmt, *ast.TypeSwitchStmt:
+			// these consume `break name` / `continue name` themselves
+			m.nextLabel = name
+			return m.stmt(fr, s.Stmt)
+		}
+		// any other labelled statement: `break name` leaves it
+		ctl := m.stmt(fr, s.Stmt)
+		if ctl == c13Break && m.brLabel == name {
+			m.brLabel = ""
+			return c13None
+		}
+		return ctl
 	case *ast.BlockStmt:
 		return m.block(fr, s.List)
 	case *ast.EmptyStmt:
@@ -1036,9 +1090,9 @@ func (m *c13M) stmt(fr *c13Frame, s ast.Stmt) int {
 			return m.stmt(fr, s.Else)
 		}
 	case *ast.SwitchStmt:
-		return m.switchStmt(fr, s)
+		return m.switchCtl(m.switchStmt(fr, s), own)
 	case *ast.TypeSwitchStmt:
-		return m.typeSwitch(fr, s)
+		return m.switchCtl(m.typeSwitch(fr, s), own)
 	case *ast.AssignStmt:
 		m.assign(fr, s)
 	case *ast.IncDecStmt:
@@ -1085,7 +1139,7 @@ func (m *c13M) stmt(fr *c13Frame, s ast.Stmt) int {
 			fr.defers = append(fr.defers, func() { m.call(fr, call, false) })
 		}
 	case *ast.RangeStmt:
-		return m.rangeStmt(fr, s)
+		return m.rangeStmt(fr, s, own)
 	case *ast.ForStmt:
 		if s.Init != nil {
 			m.stmt(fr, s.Init)
@@ -1094,25 +1148,24 @@ func (m *c13M) stmt(fr *c13Frame, s ast.Stmt) int {
 			if s.Cond != nil && !m.cond(fr, s.Cond) {
 				break
 			}
-			ctl := m.block(fr, s.Body.List)
-			if ctl == c13Break {
-				break
-			}
-			if ctl == c13Return {
-				return ctl
+			stop, out := m.loopCtl(m.block(fr, s.Body.List), own)
+			if stop {
+				return out
 			}
 			if s.Post != nil {
 				m.stmt(fr, s.Post)
 			}
 		}
 	case *ast.BranchStmt:
-		if s.Label != nil {
-			m.abort("labelled %s at %s", s.Tok, m.c.P.Pos(s.Pos()))
-		}
 		switch s.Tok {
-		case token.BREAK:
-			return c13Break
-		case token.CONTINUE:
+		case token.BREAK, token.CONTINUE:
+			m.brLabel = ""
+			if s.Label != nil {
+				m.brLabel = s.Label.Name
+			}
+			if s.Tok == token.BREAK {
+				return c13Break
+			}
 			return c13Continue
 		}
 		m.abort("%s at %s", s.Tok, m.c.P.Pos(s.Pos()))
@@ -1188,11 +1241,7 @@ outer:
 			m.abort("fallthrough at %s", m.c.P.Pos(br.Pos()))
 		}
 	}
-	ctl := m.block(fr, chosen.Body)
-	if ctl == c13Break {
-		return c13None
-	}
-	return ctl
+	return m.block(fr, chosen.Body)
 }
 
 func (m *c13M) typeSwitch(fr *c13Frame, s *ast.TypeSwitchStmt) int {
@@ -1250,14 +1299,10 @@ outer:
 		vv := m.copyV(v)
 		fr.env[o] = &vv
 	}
-	ctl := m.block(fr, chosen.Body)
-	if ctl == c13Break {
-		return c13None
-	}
-	return ctl
+	return m.block(fr, chosen.Body)
 }
 
-func (m *c13M) rangeStmt(fr *c13Frame, s *ast.RangeStmt) int {
+func (m *c13M) rangeStmt(fr *c13Frame, s *ast.RangeStmt, own string) int {
 	x := m.eval(fr, s.X)
 	bind := func(e ast.Expr, v c13V) {
 		if e == nil {
@@ -1276,14 +1321,7 @@ func (m *c13M) rangeStmt(fr *c13Frame, s *ast.RangeStmt) int {
 		*m.lval(fr, e) = m.copyV(v)
 	}
 	body := func() (stop bool, ctl int) {
-		c := m.block(fr, s.Body.List)
-		if c == c13Break {
-			return true, c13None
-		}
-		if c == c13Return {
-			return true, c13Return
-		}
-		return false, c13None
+		return m.loopCtl(m.block(fr, s.Body.List), own)
 	}
 	intT := types.Typ[types.Int]
 	switch x.k {
